@@ -19,12 +19,16 @@ ASSUMPTIONS = [
     "transform parameters with rtol 1e-9; the non-permuting transformations must give exactly equal results",
 ]
 
-RESPONSES = ["y", "y", "y", "f", "h", "g['g1']", "np.abs(y)", "u[p]"]
+RESPONSES = ["y", "y", "y", "f", "h", "g['g1']", "np.abs(y)", "u[p]", "prop(s, n)", "p(s, 40)"]
 
 
 @st.composite
 def case_strategy(draw):
     spec = draw(rich.frame_strategy(with_index=False, extra_unused=False))
+    n0 = frames.nrows(spec)
+    trials = [5 + (i * 7) % 9 for i in range(n0)]
+    spec["cols"].append({"name": "s", "kind": "int", "values": [(i * 5) % (t_ + 1) for i, t_ in enumerate(trials)]})
+    spec["cols"].append({"name": "n", "kind": "int", "values": trials})
     resp = draw(st.sampled_from(RESPONSES))
     d = draw(rich.design(response=resp))
     if rich.bases(resp) & (rich.used_columns(dict(d, response=None)) - set()):
@@ -107,13 +111,13 @@ def judge(ctx, case):
 
         spec = with_holes(spec, holes)  # missing values in used columns: the default policy drops those rows
     formula = d["formula"]
-    used = rich.used_columns(d)
+    used = rich.used_columns(d) if not case.get("big") else rich.bases(d["formula"])
     frame = frames.build(spec)
     ns = rich.namespace_for(frame)
     spec2, perm = transformed(spec, t, used)
     frame2 = frames.build(spec2)
     identity = (perm is not None and perm == list(range(len(perm)))) or (t["kind"] == "remove_unused" and len(spec2["cols"]) == len(spec["cols"]))
-    interesting = any("(" in a or a in ("f", "g", "h", "u") for tt in d["terms"] + [e for g in d["groups"] for e in g["effects"]] for a in tt) or bool(d["groups"])
+    interesting = bool(case.get("big")) or any("(" in a or a in ("f", "g", "h", "u") for tt in d["terms"] + [e for g in d["groups"] for e in g["effects"]] for a in tt) or bool(d["groups"])
     ctx.count(core.canon(case), interesting and not identity and frames.nrows(spec) >= 3, ["transform:" + t["kind"] + (":" + t["index"] if "index" in t else ""),
               "response:" + d["response"].split("[")[0].split("(")[0]] + (["missing_values"] if holes else []), sample={"formula": formula, "transform": t, "frame": spec}, stratum="transform:" + t["kind"])
     try:
@@ -144,6 +148,20 @@ def judge(ctx, case):
         ctx.fail("equivariance", case, f"{formula!r} after {t['kind']}{(':' + t['index']) if 'index' in t else ''}: {key}: {msg}"[:600], t["kind"] + ":" + key)
 
 
+BIG_FORMULAS = ["y ~ bs(x, df=6) + f", "y ~ poly(z, 3) + scale(x):g", "y ~ center(x) + (bs(z, df=5) | g)", "f ~ standardize(z) + bs(x, df=8, degree=2)"]
+
+
+def big_case(k, seed):
+    """A frame of a few thousand rows (estimates that are computed from a subsample or in chunks depend on row order only
+    on large frames), permuted."""
+    n = 2400 + 100 * (k % 3)
+    spec = frames.factorial_spec({"f": 2, "g": 3}, n // 6, seed=seed + k, catkinds={"f": "cat", "g": "str"})
+    perm = sorted(range(frames.nrows(spec)), key=lambda i: ((i + 1) * (seed + k + 5) * frames.PHI) % 1.0)
+    d = {"response": BIG_FORMULAS[k % len(BIG_FORMULAS)].split(" ~ ")[0], "intercept": "implicit", "terms": [], "groups": [],
+         "formula": BIG_FORMULAS[k % len(BIG_FORMULAS)]}
+    return {"design": d, "frame": spec, "transform": {"kind": "permute" if k % 2 else "permute_reset", "perm": perm}, "holes": {}, "big": True}
+
+
 def replay(ctx, case):
     judge(ctx, case)
 
@@ -153,6 +171,11 @@ def _worker(ctx, arg):
     core.run_hypothesis(ctx, case_strategy(), judge, n, shard=shard)
 
 
+def _big_worker(ctx, arg):
+    judge(ctx, big_case(arg, ctx.seed))
+
+
 def run(ctx):
+    ctx.parallel(_big_worker, list(range(4 if ctx.tier == "quick" else 16)))
     per = 250 if ctx.tier == "quick" else 2500
     ctx.parallel(_worker, [(k, per) for k in range(core.NPROC)])
